@@ -98,7 +98,7 @@ end
 
 /-- The tokens of a raw value passed to `WriteValue`. -/
 def valueToks (o : Opts) (v : Bytes) : List Tok :=
-  match tokValue o (2 * v.length + 2) (skipWS v) with
+  match tokValue o (3 * v.length + 4) (skipWS v) with
   | some (ts, _) => ts
   | none => []
 
@@ -169,24 +169,74 @@ def PV (o : Opts) (fuel : Nat) : Prop :=
     f.needName = false → (f :: r0).length ≤ o.maxDepth + 1 →
     dst = pre ++ sepBytes o (f :: r0) .lit →
     reformatValue o fuel dst src (f :: r0).length = .ok (dst', rest) →
-    ∃ toks, tokValue o fuel src = some (toks, rest) ∧ ∀ more,
-      pre ++ renderFrom o (f :: r0) (toks ++ more) = dst' ++ NL (f.bump :: r0) ++ renderFrom o (f.bump :: r0) more
+    ∃ toks, tokValue o fuel src = some (toks, rest) ∧ (∀ more,
+      pre ++ renderFrom o (f :: r0) (toks ++ more) = dst' ++ NL (f.bump :: r0) ++ renderFrom o (f.bump :: r0) more) ∧
+      ∀ ns, trackRun o (f :: r0) ns toks = some (f.bump :: r0, ns)
 
 def PO (o : Opts) (fuel : Nat) : Prop :=
   ∀ (pre dst src dst' rest : Bytes) (n : Nat) (g : Frame) (r : List Frame) (names : List Bytes),
     n % 2 = 0 → (g :: r).length ≤ o.maxDepth →
     dst = pre ++ commaPart o n →
     objectLoop o fuel dst src (r.length + 2) names = .ok (dst', rest) →
-    ∃ toks, tokObj o fuel src = some (toks, rest) ∧ ∀ more,
-      pre ++ renderFrom o (.obj n :: g :: r) (toks ++ more) = dst' ++ NL (g :: r) ++ renderFrom o (g :: r) more
+    ∃ toks, tokObj o fuel src = some (toks, rest) ∧ (∀ more,
+      pre ++ renderFrom o (.obj n :: g :: r) (toks ++ more) = dst' ++ NL (g :: r) ++ renderFrom o (g :: r) more) ∧
+      ∀ top ns, trackRun o (.obj n :: g :: r) (top :: ns) toks = some (g :: r, ns)
 
 def PA (o : Opts) (fuel : Nat) : Prop :=
   ∀ (pre dst src dst' rest : Bytes) (n : Nat) (g : Frame) (r : List Frame),
     (g :: r).length ≤ o.maxDepth →
     dst = pre ++ commaPart o n →
     arrayLoop o fuel dst src (r.length + 2) = .ok (dst', rest) →
-    ∃ toks, tokArr o fuel src = some (toks, rest) ∧ ∀ more,
-      pre ++ renderFrom o (.arr n :: g :: r) (toks ++ more) = dst' ++ NL (g :: r) ++ renderFrom o (g :: r) more
+    ∃ toks, tokArr o fuel src = some (toks, rest) ∧ (∀ more,
+      pre ++ renderFrom o (.arr n :: g :: r) (toks ++ more) = dst' ++ NL (g :: r) ++ renderFrom o (g :: r) more) ∧
+      ∀ ns, trackRun o (.arr n :: g :: r) ns toks = some (g :: r, ns)
+
+/-! ### `trackRun` facts -/
+
+theorem trackRun_append (o : Opts) (a b : List Tok) : ∀ (fs : Frames) (ns : List (List Bytes)),
+    trackRun o fs ns (a ++ b) = (trackRun o fs ns a).bind (fun p => trackRun o p.1 p.2 b) := by
+  induction a with
+  | nil => intro fs ns; simp [trackRun]
+  | cons t a ih =>
+    intro fs ns
+    simp only [List.cons_append, trackRun]
+    cases step o.maxDepth fs (kindOf t) with
+    | none => rfl
+    | some fs' => exact ih fs' _
+
+theorem tr_scalar (o : Opts) (f : Frame) (r0 : List Frame) (ns : List (List Bytes)) (t : Tok)
+    (hf : f.needName = false) (hk : kindOf t = .lit ∨ kindOf t = .str ∨ kindOf t = .num) :
+    trackRun o (f :: r0) ns [t] = some (f.bump :: r0, ns) := by
+  have hs : step o.maxDepth (f :: r0) (kindOf t) = some (f.bump :: r0) := by
+    rcases hk with h | h | h <;> rw [h] <;> simp [step, hf]
+  have hn : namesStep o (f :: r0) ns t = ns := by
+    cases t <;> simp [kindOf] at hk <;> simp [namesStep, isNamePos, hf]
+  simp only [trackRun, hs, hn]
+
+theorem tr_open_obj (o : Opts) (f : Frame) (r0 : List Frame) (ns : List (List Bytes)) (ts : List Tok)
+    (hf : f.needName = false) (hl : r0.length < o.maxDepth) :
+    trackRun o (f :: r0) ns (.beginObj :: ts) = trackRun o (.obj 0 :: f.bump :: r0) ([] :: ns) ts := by
+  simp [trackRun, step, kindOf, hf, hl, namesStep]
+
+theorem tr_open_arr (o : Opts) (f : Frame) (r0 : List Frame) (ns : List (List Bytes)) (ts : List Tok)
+    (hf : f.needName = false) (hl : r0.length < o.maxDepth) :
+    trackRun o (f :: r0) ns (.beginArr :: ts) = trackRun o (.arr 0 :: f.bump :: r0) ns ts := by
+  simp [trackRun, step, kindOf, hf, hl, namesStep]
+
+theorem tr_close_obj (o : Opts) (n : Nat) (g : Frame) (r : List Frame) (top : List Bytes) (ns : List (List Bytes))
+    (ts : List Tok) (hn : n % 2 = 0) :
+    trackRun o (.obj n :: g :: r) (top :: ns) (.endObj :: ts) = trackRun o (g :: r) ns ts := by
+  simp [trackRun, step, kindOf, hn, namesStep]
+
+theorem tr_close_arr (o : Opts) (n : Nat) (g : Frame) (r : List Frame) (ns : List (List Bytes)) (ts : List Tok) :
+    trackRun o (.arr n :: g :: r) ns (.endArr :: ts) = trackRun o (g :: r) ns ts := by
+  simp [trackRun, step, kindOf, namesStep]
+
+theorem tr_name (o : Opts) (n : Nat) (g : Frame) (r : List Frame) (top : List Bytes) (ns : List (List Bytes))
+    (name : Bytes) (ts : List Tok) (hn : n % 2 = 0) :
+    trackRun o (.obj n :: g :: r) (top :: ns) (.str name :: ts) =
+      trackRun o (.obj (n + 1) :: g :: r) ((top ++ [nameOf o name]) :: ns) ts := by
+  simp [trackRun, step, kindOf, namesStep, isNamePos, Frame.needName, hn, Frame.bump]
 
 theorem step_value {max : Nat} {f : Frame} {r0 : List Frame} (k : Kind) (hf : f.needName = false)
     (hk : k = .lit ∨ k = .str ∨ k = .num) : step max (f :: r0) k = some (f.bump :: r0) := by
@@ -207,12 +257,10 @@ theorem reformatString_out {o : Opts} {src q name r : Bytes} (h : reformatString
     q = (appendQuote o name).1 := by
   unfold reformatString at h
   split at h
-  · split at h
-    · cases h
-    · simp only [Except.ok.injEq, Prod.mk.injEq] at h
-      obtain ⟨h1, h2, _⟩ := h
-      rw [← h1, ← h2]
-  · cases h
+  split at h
+  · simp only [Except.ok.injEq, Prod.mk.injEq] at h
+    obtain ⟨h1, h2, _⟩ := h
+    rw [← h1, ← h2]
   · cases h
 
 theorem NL_deep (f g : Frame) (r : List Frame) : NL (f :: g :: r) = [] := by simp [NL]
@@ -267,7 +315,8 @@ theorem pv_step (o : Opts) (fuel : Nat) (hO : PO o fuel) (hA : PA o fuel) : PV o
         simp only [Except.map, Except.ok.injEq, Prod.mk.injEq] at h
         obtain ⟨h1, h2⟩ := h
         subst h1 h2
-        refine ⟨[.null], ?_, fun more => scalar_render o pre dst f r0 .null more hf (Or.inl rfl) hd⟩
+        refine ⟨[.null], ?_, fun more => scalar_render o pre dst f r0 .null more hf (Or.inl rfl) hd,
+          fun ns => tr_scalar o f r0 ns .null hf (Or.inl rfl)⟩
         simp only [tokValue, k1, if_true, litNull, hl]
     rw [if_neg k1] at h
     by_cases k2 : normKind c = 0x66
@@ -279,7 +328,8 @@ theorem pv_step (o : Opts) (fuel : Nat) (hO : PO o fuel) (hA : PA o fuel) : PV o
         simp only [Except.map, Except.ok.injEq, Prod.mk.injEq] at h
         obtain ⟨h1, h2⟩ := h
         subst h1 h2
-        refine ⟨[.fals], ?_, fun more => scalar_render o pre dst f r0 .fals more hf (Or.inl rfl) hd⟩
+        refine ⟨[.fals], ?_, fun more => scalar_render o pre dst f r0 .fals more hf (Or.inl rfl) hd,
+          fun ns => tr_scalar o f r0 ns .fals hf (Or.inl rfl)⟩
         simp [tokValue, k2, litFalse, hl]
     rw [if_neg k2] at h
     by_cases k3 : normKind c = 0x74
@@ -291,7 +341,8 @@ theorem pv_step (o : Opts) (fuel : Nat) (hO : PO o fuel) (hA : PA o fuel) : PV o
         simp only [Except.map, Except.ok.injEq, Prod.mk.injEq] at h
         obtain ⟨h1, h2⟩ := h
         subst h1 h2
-        refine ⟨[.tru], ?_, fun more => scalar_render o pre dst f r0 .tru more hf (Or.inl rfl) hd⟩
+        refine ⟨[.tru], ?_, fun more => scalar_render o pre dst f r0 .tru more hf (Or.inl rfl) hd,
+          fun ns => tr_scalar o f r0 ns .tru hf (Or.inl rfl)⟩
         simp [tokValue, k3, litTrue, hl]
     rw [if_neg k3] at h
     by_cases k4 : normKind c = 0x22
@@ -304,7 +355,7 @@ theorem pv_step (o : Opts) (fuel : Nat) (hO : PO o fuel) (hA : PA o fuel) : PV o
         simp only [Except.map, Except.ok.injEq, Prod.mk.injEq] at h
         obtain ⟨h1, h2⟩ := h
         subst h1 h2
-        refine ⟨[.str name], ?_, fun more => ?_⟩
+        refine ⟨[.str name], ?_, fun more => ?_, fun ns => tr_scalar o f r0 ns (.str name) hf (Or.inr (Or.inl rfl))⟩
         · simp [tokValue, k4, hl]
         · have := scalar_render o pre dst f r0 (.str name) more hf (Or.inr (Or.inl rfl)) hd
           rw [this, reformatString_out hl]; rfl
@@ -319,7 +370,8 @@ theorem pv_step (o : Opts) (fuel : Nat) (hO : PO o fuel) (hA : PA o fuel) : PV o
         simp only [Except.map, Except.ok.injEq, Prod.mk.injEq] at h
         obtain ⟨h1, h2⟩ := h
         subst h1 h2
-        refine ⟨[.num nt], ?_, fun more => scalar_render o pre dst f r0 (.num nt) more hf (Or.inr (Or.inr rfl)) hd⟩
+        refine ⟨[.num nt], ?_, fun more => scalar_render o pre dst f r0 (.num nt) more hf (Or.inr (Or.inr rfl)) hd,
+          fun ns => tr_scalar o f r0 ns (.num nt) hf (Or.inr (Or.inr rfl))⟩
         simp [tokValue, k5, hl]
     rw [if_neg k5] at h
     have hbump : f.bump.needName = f.bump.needName := rfl
@@ -340,7 +392,8 @@ theorem pv_step (o : Opts) (fuel : Nat) (hO : PO o fuel) (hA : PA o fuel) : PV o
           simp only [Except.ok.injEq, Prod.mk.injEq] at h
           obtain ⟨h1, h2⟩ := h
           subst h1 h2
-          refine ⟨[.beginObj, .endObj], ?_, fun more => ?_⟩
+          refine ⟨[.beginObj, .endObj], ?_, fun more => ?_, fun ns => by
+            rw [tr_open_obj o f r0 ns _ hf hl, tr_close_obj o 0 f.bump r0 [] ns [] rfl]; rfl⟩
           · simp [tokValue, k6, hw', hc]
           · simp only [List.cons_append, List.nil_append]
             rw [open_obj_render o f r0 _ hf hl, close_obj_render o 0 f.bump r0 more rfl, hd]
@@ -348,9 +401,10 @@ theorem pv_step (o : Opts) (fuel : Nat) (hO : PO o fuel) (hA : PA o fuel) : PV o
         · rw [if_neg hc] at h
           have hdep : (f :: r0).length + 1 = r0.length + 2 := by simp
           rw [hdep] at h
-          obtain ⟨toks, ht, hr⟩ := hO (pre ++ sepBytes o (f :: r0) .lit ++ [0x7b]) (dst ++ [0x7b]) (c1 :: r1) dst' rest
+          obtain ⟨toks, ht, hr, htr⟩ := hO (pre ++ sepBytes o (f :: r0) .lit ++ [0x7b]) (dst ++ [0x7b]) (c1 :: r1) dst' rest
             0 f.bump r0 [] rfl (by simp; omega) (by simp [commaPart, hd]) h
-          refine ⟨.beginObj :: toks, ?_, fun more => ?_⟩
+          refine ⟨.beginObj :: toks, ?_, fun more => ?_, fun ns => by
+            rw [tr_open_obj o f r0 ns _ hf hl]; exact htr [] ns⟩
           · simp [tokValue, k6, hw', hc, ht]
           · simp only [List.cons_append]
             rw [open_obj_render o f r0 _ hf hl, ← hr more]
@@ -373,7 +427,8 @@ theorem pv_step (o : Opts) (fuel : Nat) (hO : PO o fuel) (hA : PA o fuel) : PV o
           simp only [Except.ok.injEq, Prod.mk.injEq] at h
           obtain ⟨h1, h2⟩ := h
           subst h1 h2
-          refine ⟨[.beginArr, .endArr], ?_, fun more => ?_⟩
+          refine ⟨[.beginArr, .endArr], ?_, fun more => ?_, fun ns => by
+            rw [tr_open_arr o f r0 ns _ hf hl, tr_close_arr o 0 f.bump r0 ns []]; rfl⟩
           · simp [tokValue, k7, hw', hc]
           · simp only [List.cons_append, List.nil_append]
             rw [open_arr_render o f r0 _ hf hl, close_arr_render o 0 f.bump r0 more, hd]
@@ -381,9 +436,10 @@ theorem pv_step (o : Opts) (fuel : Nat) (hO : PO o fuel) (hA : PA o fuel) : PV o
         · rw [if_neg hc] at h
           have hdep : (f :: r0).length + 1 = r0.length + 2 := by simp
           rw [hdep] at h
-          obtain ⟨toks, ht, hr⟩ := hA (pre ++ sepBytes o (f :: r0) .lit ++ [0x5b]) (dst ++ [0x5b]) (c1 :: r1) dst' rest
+          obtain ⟨toks, ht, hr, htr⟩ := hA (pre ++ sepBytes o (f :: r0) .lit ++ [0x5b]) (dst ++ [0x5b]) (c1 :: r1) dst' rest
             0 f.bump r0 (by simp; omega) (by simp [commaPart, hd]) h
-          refine ⟨.beginArr :: toks, ?_, fun more => ?_⟩
+          refine ⟨.beginArr :: toks, ?_, fun more => ?_, fun ns => by
+            rw [tr_open_arr o f r0 ns _ hf hl]; exact htr ns⟩
           · simp [tokValue, k7, hw', hc, ht]
           · simp only [List.cons_append]
             rw [open_arr_render o f r0 _ hf hl, ← hr more]
@@ -415,7 +471,7 @@ theorem pa_step (o : Opts) (fuel : Nat) (hV : PV o fuel) (hA : PA o fuel) : PA o
       obtain ⟨dst2, s1⟩ := p
       rw [hv] at h
       simp only at h
-      obtain ⟨tv, htv, hrv⟩ := hV pre _ (c0 :: s0) dst2 s1 (.arr n) (g :: r) rfl
+      obtain ⟨tv, htv, hrv, htrv⟩ := hV pre _ (c0 :: s0) dst2 s1 (.arr n) (g :: r) rfl
         (by simp at hlen ⊢; omega)
         (by rw [hd, sep_elem o n g r .lit rfl, ← hfr, List.append_assoc]) hv
       cases hw : skipWS s1 with
@@ -425,8 +481,9 @@ theorem pa_step (o : Opts) (fuel : Nat) (hV : PV o fuel) (hA : PA o fuel) : PA o
         simp only at h
         by_cases hc : c2 = 0x2c
         · rw [if_pos hc, comma_eq o dst2 n, ← hfr] at h
-          obtain ⟨ts, hts, hrs⟩ := hA dst2 _ s2 dst' rest (n + 1) g r hlen rfl h
-          refine ⟨tv ++ ts, ?_, fun more => ?_⟩
+          obtain ⟨ts, hts, hrs, htrs⟩ := hA dst2 _ s2 dst' rest (n + 1) g r hlen rfl h
+          refine ⟨tv ++ ts, ?_, fun more => ?_, fun ns => by
+            rw [trackRun_append, htrv ns]; exact htrs ns⟩
           · simp [tokArr, hs, htv, hw, hc, hts]
           · have hb : (Frame.arr n).bump = Frame.arr (n + 1) := rfl
             rw [List.append_assoc, hrv (ts ++ more), hb, NL_deep, List.append_nil, hrs more]
@@ -436,7 +493,9 @@ theorem pa_step (o : Opts) (fuel : Nat) (hV : PV o fuel) (hA : PA o fuel) : PA o
             simp only [Except.ok.injEq, Prod.mk.injEq] at h
             obtain ⟨h1, h2⟩ := h
             subst h1 h2
-            refine ⟨tv ++ [.endArr], ?_, fun more => ?_⟩
+            refine ⟨tv ++ [.endArr], ?_, fun more => ?_, fun ns => by
+              rw [trackRun_append, htrv ns]
+              exact (tr_close_arr o (n + 1) g r ns []).trans rfl⟩
             · simp [tokArr, hs, htv, hw, hc2]
             · have hb : (Frame.arr n).bump = Frame.arr (n + 1) := rfl
               rw [List.append_assoc, List.singleton_append, hrv (Tok.endArr :: more), hb, NL_deep, List.append_nil,
@@ -496,7 +555,7 @@ theorem po_step (o : Opts) (fuel : Nat) (hV : PV o fuel) (hO : PO o fuel) : PO o
               rw [hv] at h
               simp only at h
               have hodd : (n + 1) % 2 = 1 := by omega
-              obtain ⟨tv, htv, hrv⟩ := hV (dst ++ ind o (Frame.obj (n + 1) :: g :: r).length ++ q) _ (c3 :: s3) dst5 s4
+              obtain ⟨tv, htv, hrv, htrv⟩ := hV (dst ++ ind o (Frame.obj (n + 1) :: g :: r).length ++ q) _ (c3 :: s3) dst5 s4
                 (.obj (n + 1)) (g :: r) (by simp [Frame.needName, hodd]) (by simp at hlen ⊢; omega)
                 (by rw [sep_member_value o (n + 1) g r hodd]) hv
               have hb : (Frame.obj (n + 1)).bump = Frame.obj (n + 2) := rfl
@@ -512,8 +571,10 @@ theorem po_step (o : Opts) (fuel : Nat) (hV : PV o fuel) (hO : PO o fuel) : PO o
                 simp only at h
                 by_cases hc5 : c5 = 0x2c
                 · rw [if_pos hc5, comma_eq o dst5 (n + 1), ← hfr] at h
-                  obtain ⟨ts, hts, hrs⟩ := hO dst5 _ s5 dst' rest (n + 2) g r _ (by omega) hlen rfl h
-                  refine ⟨.str name :: tv ++ ts, ?_, fun more => ?_⟩
+                  obtain ⟨ts, hts, hrs, htrs⟩ := hO dst5 _ s5 dst' rest (n + 2) g r _ (by omega) hlen rfl h
+                  refine ⟨.str name :: tv ++ ts, ?_, fun more => ?_, fun top ns => by
+                    rw [List.cons_append, tr_name o n g r top ns name _ hn, trackRun_append, htrv]
+                    exact htrs _ ns⟩
                   · simp [tokObj, hs, hq, hw, hc, hw3, htv, hw5, hc5, hts]
                   · have e1 : (Tok.str name :: tv ++ ts) ++ more = Tok.str name :: (tv ++ (ts ++ more)) := by simp
                     rw [e1, hpre, hrv (ts ++ more), hb, NL_deep, List.append_nil, hrs more]
@@ -523,7 +584,9 @@ theorem po_step (o : Opts) (fuel : Nat) (hV : PV o fuel) (hO : PO o fuel) : PO o
                     simp only [Except.ok.injEq, Prod.mk.injEq] at h
                     obtain ⟨h1, h2⟩ := h
                     subst h1 h2
-                    refine ⟨.str name :: tv ++ [.endObj], ?_, fun more => ?_⟩
+                    refine ⟨.str name :: tv ++ [.endObj], ?_, fun more => ?_, fun top ns => by
+                      rw [List.cons_append, tr_name o n g r top ns name _ hn, trackRun_append, htrv]
+                      exact (tr_close_obj o (n + 2) g r _ ns [] (by omega)).trans rfl⟩
                     · simp [tokObj, hs, hq, hw, hc, hw3, htv, hw5, hc5, hc6]
                     · have e1 : (Tok.str name :: tv ++ [Tok.endObj]) ++ more = Tok.str name :: (tv ++ (Tok.endObj :: more)) := by
                         simp
@@ -671,8 +734,9 @@ theorem string_value (o : Opts) (fuel : Nat) (pre dst dst' rest : Bytes) (c : UI
     (f : Frame) (r0 : List Frame) (d : Nat) (hk : normKind c = 0x22)
     (hd : dst = pre ++ sepBytes o (f :: r0) .lit)
     (h : reformatValue o (fuel + 1) dst (c :: s) d = .ok (dst', rest)) :
-    ∃ toks, tokValue o (fuel + 1) (c :: s) = some (toks, rest) ∧ ∀ more,
-      pre ++ renderFrom o (f :: r0) (toks ++ more) = dst' ++ NL (f.bump :: r0) ++ renderFrom o (f.bump :: r0) more := by
+    ∃ name, tokValue o (fuel + 1) (c :: s) = some ([.str name], rest) ∧ dst' = dst ++ (appendQuote o name).1 ∧
+      ∀ more, pre ++ renderFrom o (f :: r0) ([.str name] ++ more) =
+        dst' ++ NL (f.bump :: r0) ++ renderFrom o (f.bump :: r0) more := by
   simp only [reformatValue] at h
   have k1 : ¬ normKind c = 0x6e := by rw [hk]; decide
   have k2 : ¬ normKind c = 0x66 := by rw [hk]; decide
@@ -686,20 +750,220 @@ theorem string_value (o : Opts) (fuel : Nat) (pre dst dst' rest : Bytes) (c : UI
     simp only [Except.map, Except.ok.injEq, Prod.mk.injEq] at h
     obtain ⟨h1, h2⟩ := h
     subst h1 h2
-    refine ⟨[.str name], by simp [tokValue, hk, hl], fun more => ?_⟩
+    refine ⟨name, by simp [tokValue, hk, hl], by rw [reformatString_out hl], fun more => ?_⟩
     have hs : step o.maxDepth (f :: r0) (kindOf (.str name)) = some (f.bump :: r0) := by simp [step, kindOf]
     have hsep : sepBytes o (f :: r0) (kindOf (.str name)) = sepBytes o (f :: r0) .lit := sep_indep _ _ _ _ rfl
     simp only [List.singleton_append, renderFrom_cons more hs, hsep, hd, List.append_assoc, tokText,
       reformatString_out hl]
 
-/-- **One accepted `WriteValue`** from a reachable state appends exactly the rendering of the value's
-tokens (separator, reformatted text in the layout of the options, newline at top level). -/
-theorem writeValue_render {o : Opts} {b : Nat} {fs : Frames} {ns : List (List Bytes)} {e e' : Enc}
+theorem tr_str (o : Opts) (f : Frame) (r0 : List Frame) (ns : List (List Bytes)) (name : Bytes) :
+    trackRun o (f :: r0) ns [.str name] = some (f.bump :: r0, namesStep o (f :: r0) ns (.str name)) := by
+  simp [trackRun, step, kindOf]
+
+/-! ### Effect of the state-machine part of WriteValue -/
+
+theorem inv_mono {max b b' : Nat} {m : Machine} (h : Inv max b m) (hb : b ≤ b') : Inv max b' m :=
+  ⟨clean_mono h.last hb, fun e he => clean_mono (h.stack e he) hb, h.depth⟩
+
+theorem step_scalar_result {max : Nat} {f : Frame} {r0 : List Frame} {fs' : Frames} {k : Kind}
+    (hk : k = .lit ∨ k = .str ∨ k = .num) (h : step max (f :: r0) k = some fs') : fs' = f.bump :: r0 := by
+  rcases hk with hk | hk | hk <;> subst hk <;> simp only [step] at h
+  · split at h
+    · cases h
+    · cases h; rfl
+  · cases h; rfl
+  · split at h
+    · cases h
+    · cases h; rfl
+
+theorem step_open_close_obj_result {max : Nat} {f : Frame} {r0 : List Frame} {fs1 fs2 : Frames}
+    (h1 : step max (f :: r0) .beginObj = some fs1) (h2 : step max fs1 .endObj = some fs2) : fs2 = f.bump :: r0 := by
+  simp only [step] at h1
+  split at h1
+  · cases h1
+  · split at h1
+    · cases h1; simp [step] at h2; exact h2.symm
+    · cases h1
+
+theorem step_open_close_arr_result {max : Nat} {f : Frame} {r0 : List Frame} {fs1 fs2 : Frames}
+    (h1 : step max (f :: r0) .beginArr = some fs1) (h2 : step max fs1 .endArr = some fs2) : fs2 = f.bump :: r0 := by
+  simp only [step] at h1
+  split at h1
+  · cases h1
+  · split at h1
+    · cases h1; simp [step] at h2; exact h2.symm
+    · cases h1
+
+/-- Names after a string with the given name (the `.str` case of `namesStep`). -/
+def namesAfterName (fs : Frames) (ns : List (List Bytes)) (name : Bytes) : List (List Bytes) :=
+  if isNamePos fs then
+    match ns with
+    | top :: rest => (top ++ [name]) :: rest
+    | [] => []
+  else ns
+
+theorem namesStep_str (o : Opts) (fs : Frames) (ns : List (List Bytes)) (s : Bytes) :
+    namesStep o fs ns (.str s) = namesAfterName fs ns (nameOf o s) := rfl
+
+theorem nameCheckSpec_ok' {o : Opts} {fs : Frames} {ns ns' : List (List Bytes)} {name : Bytes}
+    (h : nameCheckSpec o fs ns ns name = .ok ns') (hd : o.allowDup = false) :
+    ns' = namesAfterName fs ns name := by
+  unfold nameCheckSpec at h
+  unfold namesAfterName
+  by_cases hn : isNamePos fs = true
+  · rw [if_pos ⟨hn, hd⟩] at h
+    rw [if_pos hn]
+    cases ns with
+    | nil => cases h
+    | cons top rest =>
+      simp only at h
+      split at h
+      · cases h
+      · cases h; rfl
+  · rw [if_neg (fun h' => hn h'.1)] at h
+    rw [if_neg hn]
+    cases h; rfl
+
+theorem scalar_effect {o : Opts} {b : Nat} {f : Frame} {r0 : List Frame} {ns : List (List Bytes)} {e : Enc}
+    (hI : EncInv o b (f :: r0) ns e) (hb : b + 2 < 2^61) (k : Kind) (hk : k = .lit ∨ k = .str ∨ k = .num)
+    {m : Machine} (h : smStep o.maxDepth e.m k = .ok m) :
+    abs m = f.bump :: r0 ∧ Inv o.maxDepth (b + 2) m := by
+  have href := step_refines hI.inv (by omega : b + 1 < 2^61) k
+  unfold StepRel at href
+  rw [h, hI.abs_eq] at href
+  exact ⟨step_scalar_result hk href.1, inv_mono href.2 (by omega)⟩
+
+
+theorem obj_effect {o : Opts} {b : Nat} {f : Frame} {r0 : List Frame} {ns : List (List Bytes)} {e : Enc}
+    (hI : EncInv o b (f :: r0) ns e) (hb : b + 2 < 2^61) {m1 m2 : Machine}
+    (h1 : e.m.pushObject o.maxDepth = .ok m1) (h2 : m1.popObject = .ok m2) :
+    abs m2 = f.bump :: r0 ∧ Inv o.maxDepth (b + 2) m2 := by
+  have r1 := step_refines hI.inv (by omega : b + 1 < 2^61) .beginObj
+  unfold StepRel at r1
+  simp only [smStep, h1, hI.abs_eq] at r1
+  have r2 := step_refines r1.2 (by omega : b + 1 + 1 < 2^61) .endObj
+  unfold StepRel at r2
+  simp only [smStep, h2] at r2
+  exact ⟨step_open_close_obj_result r1.1 r2.1, r2.2⟩
+
+theorem arr_effect {o : Opts} {b : Nat} {f : Frame} {r0 : List Frame} {ns : List (List Bytes)} {e : Enc}
+    (hI : EncInv o b (f :: r0) ns e) (hb : b + 2 < 2^61) {m1 m2 : Machine}
+    (h1 : e.m.pushArray o.maxDepth = .ok m1) (h2 : m1.popArray = .ok m2) :
+    abs m2 = f.bump :: r0 ∧ Inv o.maxDepth (b + 2) m2 := by
+  have r1 := step_refines hI.inv (by omega : b + 1 < 2^61) .beginArr
+  unfold StepRel at r1
+  simp only [smStep, h1, hI.abs_eq] at r1
+  have r2 := step_refines r1.2 (by omega : b + 1 + 1 < 2^61) .endArr
+  unfold StepRel at r2
+  simp only [smStep, h2] at r2
+  exact ⟨step_open_close_arr_result r1.1 r2.1, r2.2⟩
+
+/-- What the state-machine part of an accepted `WriteValue` does: the innermost frame counts one more
+element, the depth is unchanged, and only a raw string in name position adds a name. -/
+theorem valueSM_effect {o : Opts} {b : Nat} {f : Frame} {r0 : List Frame} {ns : List (List Bytes)} {e : Enc}
+    (hI : EncInv o b (f :: r0) ns e) (hb : b + 2 < 2^61) (k : UInt8) (lit : Bytes) (hk : IsValueKind k)
+    {m : Machine} {ns2 : List (List Bytes)} (h : valueSM e k lit = .ok (m, ns2)) :
+    abs m = f.bump :: r0 ∧ Inv o.maxDepth (b + 2) m ∧
+      (o.allowDup = false → ns2 = if k = 0x22 then namesAfterName (f :: r0) ns (unquote lit) else ns) := by
+  unfold valueSM at h
+  rw [hI.opts] at h
+  by_cases h1 : k = 0x6e ∨ k = 0x66 ∨ k = 0x74
+  · have hq : k ≠ 0x22 := by rcases h1 with h | h | h <;> subst h <;> decide
+    rw [if_pos h1] at h
+    have hm := liftSM_map_ok h
+    have hns : ns2 = e.ns := by
+      rw [hm] at h; simp [liftSM, Except.map] at h; exact h.symm
+    obtain ⟨ha, hi⟩ := scalar_effect hI hb .lit (Or.inl rfl) (m := m) hm
+    exact ⟨ha, hi, fun hd => by rw [if_neg hq, hns]; exact (hI.names hd).1⟩
+  rw [if_neg h1] at h
+  by_cases h2 : k = 0x22
+  · rw [if_pos h2] at h
+    cases hc : checkName e lit with
+    | error x => rw [hc] at h; cases h
+    | ok nsx =>
+      rw [hc] at h
+      simp only at h
+      have hm := liftSM_map_ok h
+      have hns : ns2 = nsx := by
+        rw [hm] at h; simp [liftSM, Except.map] at h; exact h.symm
+      obtain ⟨ha, hi⟩ := scalar_effect hI hb .str (Or.inr (Or.inl rfl)) (m := m) hm
+      refine ⟨ha, hi, fun hd => ?_⟩
+      rw [if_pos h2, hns]
+      rw [checkName_spec hI lit, (hI.names hd).1] at hc
+      exact nameCheckSpec_ok' hc hd
+  rw [if_neg h2] at h
+  by_cases h3 : k = 0x30
+  · rw [if_pos h3] at h
+    have hm := liftSM_map_ok (x := e.m.appendNumber) h
+    have hns : ns2 = e.ns := by
+      rw [hm] at h; simp [liftSM, Except.map] at h; exact h.symm
+    obtain ⟨ha, hi⟩ := scalar_effect hI hb .num (Or.inr (Or.inr rfl)) (m := m) hm
+    exact ⟨ha, hi, fun hd => by rw [if_neg h2, hns]; exact (hI.names hd).1⟩
+  rw [if_neg h3] at h
+  by_cases h4 : k = 0x7b
+  · rw [if_pos h4] at h
+    cases hp : e.m.pushObject o.maxDepth with
+    | error x => rw [hp] at h; cases h
+    | ok m1 =>
+      rw [hp] at h
+      simp only at h
+      cases hq : m1.popObject with
+      | error x => rw [hq] at h; cases h
+      | ok m2 =>
+        rw [hq] at h
+        simp only [Except.ok.injEq, Prod.mk.injEq] at h
+        obtain ⟨hm, hns⟩ := h
+        subst hm
+        obtain ⟨ha, hi⟩ := obj_effect hI hb hp hq
+        exact ⟨ha, hi, fun hd => by rw [if_neg h2, ← hns]; exact (hI.names hd).1⟩
+  rw [if_neg h4] at h
+  by_cases h5 : k = 0x5b
+  · rw [if_pos h5] at h
+    cases hp : e.m.pushArray o.maxDepth with
+    | error x => rw [hp] at h; cases h
+    | ok m1 =>
+      rw [hp] at h
+      simp only at h
+      cases hq : m1.popArray with
+      | error x => rw [hq] at h; cases h
+      | ok m2 =>
+        rw [hq] at h
+        simp only [Except.ok.injEq, Prod.mk.injEq] at h
+        obtain ⟨hm, hns⟩ := h
+        subst hm
+        obtain ⟨ha, hi⟩ := arr_effect hI hb hp hq
+        exact ⟨ha, hi, fun hd => by rw [if_neg h2, ← hns]; exact (hI.names hd).1⟩
+  · exfalso
+    rcases hk with h | h | h | h | h | h | h
+    · exact h1 (Or.inl h)
+    · exact h1 (Or.inr (Or.inl h))
+    · exact h1 (Or.inr (Or.inr h))
+    · exact h2 h
+    · exact h3 h
+    · exact h4 h
+    · exact h5 h
+
+
+theorem countP_bump (f : Frame) (r0 : List Frame) :
+    (f.bump :: r0).countP isObj = (f :: r0).countP isObj := by
+  simp [List.countP_cons, isObj_bump]
+
+theorem namesAfterName_length (fs : Frames) (ns : List (List Bytes)) (name : Bytes) :
+    (namesAfterName fs ns name).length = ns.length := by
+  unfold namesAfterName
+  split
+  · cases ns <;> simp
+  · rfl
+
+/-- **One accepted `WriteValue`** from a reachable state: the output grows by the rendering of the value's
+tokens, and the new state is the reachable state whose frames and names are those after these tokens. -/
+theorem writeValue_inv {o : Opts} {b : Nat} {fs : Frames} {ns : List (List Bytes)} {e e' : Enc}
     (hI : EncInv o b fs ns e) (hb : b + 2 < 2^61) (v : Bytes) (h : writeValue e v = (e', none)) :
-    ∃ toks rest, tokValue o (2 * v.length + 2) (skipWS v) = some (toks, rest) ∧
-      e'.out = e.out ++ renderFrom o fs toks := by
+    ∃ toks rest fs' ns', tokValue o (3 * v.length + 4) (skipWS v) = some (toks, rest) ∧
+      e'.out = e.out ++ renderFrom o fs toks ∧ trackRun o fs ns toks = some (fs', ns') ∧
+      EncInv o (b + 2) fs' ns' e' := by
   rw [writeValue_nf, hI.opts] at h
-  cases hr : reformatValue o (2 * v.length + 2) (beforeToken e (valueKind v)) (skipWS v) e.m.depth with
+  cases hr : reformatValue o (3 * v.length + 4) (beforeToken e (valueKind v)) (skipWS v) e.m.depth with
   | error err => rw [hr] at h; simp at h
   | ok p =>
     obtain ⟨b', rest⟩ := p
@@ -713,7 +977,7 @@ theorem writeValue_render {o : Opts} {b : Nat} {fs : Frames} {ns : List (List By
       cases hv : valueSM e (valueKind v) (b'.drop (beforeToken e (valueKind v)).length) with
       | error err => rw [hv] at h; simp at h
       | ok q =>
-        obtain ⟨m, ns'⟩ := q
+        obtain ⟨m, ns2⟩ := q
         rw [hv] at h
         simp only [Prod.mk.injEq, and_true] at h
         subst h
@@ -724,37 +988,60 @@ theorem writeValue_render {o : Opts} {b : Nat} {fs : Frames} {ns : List (List By
         cases hfs' : fs with
         | nil => rw [hfs'] at hfs; simp [abs] at hfs
         | cons f r0 =>
+          subst hfs'
           have hbt : beforeToken e (valueKind v) = e.out ++ sepBytes o (f :: r0) .lit := by
-            rw [beforeValue_eq e _ hk (by rw [hfs]; exact hI.bottom), hI.opts, hfs, hfs']
-          have hdepth : e.m.depth = (f :: r0).length := by rw [depth_abs, hfs, hfs']
+            rw [beforeValue_eq e _ hk (by rw [hfs]; exact hI.bottom), hI.opts, hfs]
+          have hdepth : e.m.depth = (f :: r0).length := by rw [depth_abs, hfs]
           have hlen : (f :: r0).length ≤ o.maxDepth + 1 := by
-            rw [← hfs', ← hfs, abs_length]; have := hI.inv.depth; omega
+            rw [← hfs, abs_length]; have := hI.inv.depth; omega
           rw [hdepth, hsrc] at hr
-          have key : ∃ toks, tokValue o (2 * v.length + 2) (c :: s) = some (toks, rest) ∧ ∀ more,
-              e.out ++ renderFrom o (f :: r0) (toks ++ more) =
-                b' ++ NL (f.bump :: r0) ++ renderFrom o (f.bump :: r0) more := by
-            by_cases hq : normKind c = 0x22
-            · exact string_value o (2 * v.length + 1) e.out _ b' rest c s f r0 _ hq hbt hr
-            · have hnn : f.needName = false := by
-                -- the PDA admitted a non-string first token, so the frame does not need a name
-                have hst := (valueSM_ok_iff hI hb (valueKind v) _ hk).mp ⟨_, hv⟩ |>.1
-                rw [hfs'] at hst
-                cases hn : f.needName with
-                | false => rfl
-                | true =>
-                  exfalso
-                  rw [hkind] at hst
-                  unfold firstKind at hst
-                  rw [if_neg hq] at hst
-                  split at hst <;> (try split at hst) <;> (try split at hst) <;> simp [step, hn] at hst
-              exact (raw_all o (2 * v.length + 2)).1 e.out _ (c :: s) b' rest f r0 hnn hlen hbt hr
-          obtain ⟨toks, ht, hrn⟩ := key
-          refine ⟨toks, rest, by rw [hsrc]; exact ht, ?_⟩
-          have := hrn []
-          simp only [List.append_nil, renderFrom] at this
-          rw [commit_out, valueSM_stack hv, this]
+          obtain ⟨hab, hinv, hnames⟩ := valueSM_effect hI hb (valueKind v) _ hk hv
           have hst : e.m.stack.length = r0.length := by
-            have := abs_length e.m; rw [hfs, hfs'] at this; simp at this; omega
-          simp [NL, hst]
+            have := abs_length e.m; rw [hfs] at this; simp at this; omega
+          have hout : ∀ toks, (∀ more, e.out ++ renderFrom o (f :: r0) (toks ++ more) =
+              b' ++ NL (f.bump :: r0) ++ renderFrom o (f.bump :: r0) more) →
+              (commit e b' m ns2).out = e.out ++ renderFrom o (f :: r0) toks := by
+            intro toks hrn
+            have := hrn []
+            simp only [List.append_nil, renderFrom] at this
+            rw [commit_out, valueSM_stack hv, this]
+            simp [NL, hst]
+          by_cases hq : normKind c = 0x22
+          · -- a raw string, possibly a member name
+            obtain ⟨name, ht, hdst, hrn⟩ := string_value o (3 * v.length + 3) e.out _ b' rest c s f r0 _ hq hbt hr
+            have hlit : b'.drop (beforeToken e (valueKind v)).length = (appendQuote o name).1 := by
+              rw [hdst]; simp
+            refine ⟨[.str name], rest, f.bump :: r0, namesStep o (f :: r0) ns (.str name),
+              by rw [hsrc]; exact ht, hout _ hrn, tr_str o f r0 ns name, ?_⟩
+            refine ⟨hI.opts, hinv, hab, ?_, fun hd => ?_⟩
+            · have hs : step o.maxDepth (f :: r0) .str = some (f.bump :: r0) := by simp [step]
+              exact step_bottomArr hs hI.bottom
+            · have h2 := hnames hd
+              have hq' : valueKind v = 0x22 := by rw [hkind]; exact hq
+              rw [if_pos hq', hlit] at h2
+              refine ⟨by show ns2 = _; rw [h2, namesStep_str]; rfl, ?_⟩
+              rw [namesStep_str, namesAfterName_length, countP_bump]
+              exact (hI.names hd).2
+          · have hnn : f.needName = false := by
+              have hstp := (valueSM_ok_iff hI hb (valueKind v) _ hk).mp ⟨_, hv⟩ |>.1
+              cases hn : f.needName with
+              | false => rfl
+              | true =>
+                exfalso
+                rw [hkind] at hstp
+                unfold firstKind at hstp
+                rw [if_neg hq] at hstp
+                split at hstp <;> (try split at hstp) <;> (try split at hstp) <;> simp [step, hn] at hstp
+            obtain ⟨toks, ht, hrn, htr⟩ :=
+              (raw_all o (3 * v.length + 4)).1 e.out _ (c :: s) b' rest f r0 hnn hlen hbt hr
+            refine ⟨toks, rest, f.bump :: r0, ns, by rw [hsrc]; exact ht, hout _ hrn, htr ns, ?_⟩
+            refine ⟨hI.opts, hinv, hab, ?_, fun hd => ?_⟩
+            · have hs : step o.maxDepth (f :: r0) .lit = some (f.bump :: r0) := by simp [step, hnn]
+              exact step_bottomArr hs hI.bottom
+            · have h2 := hnames hd
+              have hq' : ¬ valueKind v = 0x22 := by rw [hkind]; exact hq
+              rw [if_neg hq'] at h2
+              refine ⟨h2, ?_⟩
+              rw [countP_bump]; exact (hI.names hd).2
 
 end JsonV.Lemmas.EncRaw
